@@ -3,6 +3,7 @@ import SlicecVerif.Drv.C11
 import SlicecVerif.Drv.C12
 import SlicecVerif.Drv.C02
 import SlicecVerif.Drv.C17
+import SlicecVerif.Drv.C08
 import SlicecVerif.Drv.C16
 import SlicecVerif.Drv.C05
 import SlicecVerif.Drv.C13
@@ -34,6 +35,8 @@ def main (args : List String) : IO UInt32 := do
     | "C02" => genC02 t s o
     | "C09" => genC09 t s o
     | "C17" => genC17 t s o
+    | "C08" => genC08 t s o
+    | "C08p" => genC08p t s o
     | "C16" => genC16 t s o
     | "C16p" => genC16p t s o
     | "C05" => genC05 t s o
